@@ -298,6 +298,13 @@ def map_set(I, m, key, value):
     ctx = I.ctx
     if isinstance(value, (VList, VTuple)) and isinstance(m.ty.val, TSeq):
         value = materialise_seq(I, value, m.ty.val)
+    vty = getattr(m.ty, "val", None)
+    if vty is not None and not isinstance(vty, TAny):
+        # shapes are ASSUMED when a map value is loaded, so they are PROVED when one is stored
+        if isinstance(value, (VSet, VDict, VList, VTuple)):
+            ctx.oblige("maptype[value stored is %s, the map holds %s]" % (type(value).__name__[1:].lower(), vty.describe()), z3.BoolVal(False), kind="type")
+        else:
+            ctx.oblige("maptype[value stored has the shape the map holds: %s]" % vty.describe(), ctx.resolve_ty(vty).inv(ctx.to_val(value).t, goal=True), kind="type")
     idt = ctx.ref_id(m)
     kt = ctx.to_val(key).t
     has = ctx.field_array("$mhas")
